@@ -55,9 +55,9 @@ func (x *Exec) execBody(fr *Frame, st *State) ([]Val, *State) {
 			case *ssa.If:
 				c := x.term(x.value(fr, cur, v.Cond))
 				tS := cur.clone()
-				x.assume(tS, c)
+				x.branch(tS, c)
 				fS := cur
-				x.assume(fS, Not(c))
+				x.branch(fS, Not(c))
 				x.flow(fr, li, in, b, b.Succs[0], tS)
 				x.flow(fr, li, in, b, b.Succs[1], fS)
 			case *ssa.Jump:
